@@ -16,29 +16,30 @@
 (*   OutlineIsThreeLines   for stroke width 1 the stroke is exactly the union   *)
 (*                   of the three edge lines (C19)                              *)
 EXTENDS EGThickTri, TLC
-CONSTANTS G, Ws, D, HasFill
-VARIABLES t, w, tc, segs, box, tc2, segs2, box2, y, row, row2, alive
+CONSTANTS G, Ws, D, HasFill, Als
+VARIABLES t, w, al, col, tc, segs, box, tc2, segs2, box2, y, row, row2, alive
 
 DQuick == <<-7, 5>>
 Pts == { <<x, yy>> : x \in 0..G, yy \in 0..G }
 Mv(p) == <<p[1] + D[1], p[2] + D[2]>>
-vars == <<t, w, tc, segs, box, tc2, segs2, box2, y, row, row2, alive>>
+vars == <<t, w, al, col, tc, segs, box, tc2, segs2, box2, y, row, row2, alive>>
 \* negative control of RowInsideBox (cfg: BoxUsed <- BoxWithoutStroke): the triangle's own box for every width
-BoxUsed(tt, ww) == TriStyledBoxT(tt, ww)
-BoxWithoutStroke(tt, ww) == TriBox(tt)
-\* negative control of OutlineIsThreeLines (cfg: OutlineEdges <- TwoEdges)
-OutlineEdges(c) == LinePoints(c[1], c[2]) \o LinePoints(c[2], c[3]) \o LinePoints(c[3], c[1])
-TwoEdges(c) == LinePoints(c[1], c[2]) \o LinePoints(c[2], c[3])
+BoxUsed(tt, ww, aa) == TriStyledBoxT(tt, ww, aa)
+BoxWithoutStroke(tt, ww, aa) == TriBox(tt)
+\* negative control of OutlineIsThreeLines (cfg: EdgesUsed <- TwoEdges)
+EdgesUsed == 3
+TwoEdges == 2
 NoRow == [fill |-> ScEmpty, strokes |-> <<>>]
-Init == /\ t \in [1..3 -> Pts] /\ w \in Ws
-        /\ tc = SortedClockwise(t) /\ segs = TriSegsT(tc, w) /\ box = BoxUsed(t, w)
+Init == /\ t \in [1..3 -> Pts] /\ w \in Ws /\ al \in Als
+        /\ tc = SortedClockwise(t) /\ segs = TriSegsT(tc, w, OffOf(al)) /\ box = BoxUsed(t, w, al)
+        /\ col = IsCollapsedT(tc, w, OffOf(al))
         /\ LET t2 == [k \in 1..3 |-> Mv(t[k])] IN
-           /\ tc2 = SortedClockwise(t2) /\ segs2 = TriSegsT(tc2, w) /\ box2 = BoxUsed(t2, w)
+           /\ tc2 = SortedClockwise(t2) /\ segs2 = TriSegsT(tc2, w, OffOf(al)) /\ box2 = BoxUsed(t2, w, al)
         /\ y = box[2] /\ row = NoRow /\ row2 = NoRow /\ alive = TRUE
 Step == /\ alive /\ y < box[2] + box[4]
-        /\ row' = TriRowT(tc, segs, w, HasFill, y) /\ row2' = TriRowT(tc2, segs2, w, HasFill, y + D[2])
+        /\ row' = TriRowT(tc, segs, w, HasFill, y, col) /\ row2' = TriRowT(tc2, segs2, w, HasFill, y + D[2], IsCollapsedT(tc2, w, OffOf(al)))
         /\ alive' = ~RowIsEmpty(row')
-        /\ y' = y + 1 /\ UNCHANGED <<t, w, tc, segs, box, tc2, segs2, box2>>
+        /\ y' = y + 1 /\ UNCHANGED <<t, w, al, col, tc, segs, box, tc2, segs2, box2>>
 Next == Step
 Spec == Init /\ [][Next]_vars
 
@@ -51,9 +52,13 @@ Equivariant == /\ box2 = <<box[1] + D[1], box[2] + D[2], box[3], box[4]>>
                /\ row2.strokes = [k \in 1..Len(row.strokes) |-> Sh(row.strokes[k])]
 RowsOrdered == Len(row.strokes) = 2 => ~TouchesT(row.strokes[1], row.strokes[2])
 NoRowLost == alive
+\* C19's reading (P_C19!OutlineOK): each edge line in ONE OF ITS TWO DIRECTIONS, one choice for the whole outline.
+\* Evaluated once per triangle (in the initial state) on the closed form of the machine.
+Dir(a, b, rev) == IF rev = 0 THEN LinePoints(a, b) ELSE LinePoints(b, a)
+SetOf(s) == { s[i] : i \in 1..Len(s) }
 OutlineIsThreeLines ==
-  w = 1 => LET es == OutlineEdges(tc)
-               S == { es[i] : i \in 1..Len(es) } IN
-           (y > box[2] /\ alive) =>
-             UNION { { <<x, y - 1>> : x \in row.strokes[k][1]..(row.strokes[k][2] - 1) } : k \in 1..Len(row.strokes) } = { p \in S : p[2] = y - 1 }
+  (w = 1 /\ y = box[2] /\ row = NoRow) =>
+    LET O == TriThickSetT(t, 1, FALSE, TRUE, al) IN
+    \E i \in 0..1, j \in 0..1, k \in 0..1 :
+      O = SetOf(Dir(tc[1], tc[2], i)) \cup SetOf(Dir(tc[2], tc[3], j)) \cup (IF EdgesUsed = 3 THEN SetOf(Dir(tc[3], tc[1], k)) ELSE {})
 =============================================================================
